@@ -364,7 +364,8 @@ func freePort() (int, error) {
 // a casket process starts its instances one after the other, this harness starts 12 at a time:
 // the entries are created here, sequentially, so that the concurrent starts only read the map.
 func (rn *runner) warm() error {
-	_, _, err := rn.run([]string{"root", "lg1", "err"}, nil, []int{})
+	// (one request: a connection on which nothing was ever sent delays the graceful stop by 5 s)
+	_, _, err := rn.run([]string{"root", "lg1", "err"}, []req{{P: "/", M: "GET"}}, nil)
 	return err
 }
 
